@@ -13,7 +13,7 @@ CLAIMED = {
     text='Kernel-checked theorems: validate_iff, get_spec, set_spec, set_extent, get_after_set, reset_spec, '
          'blocks_refine_map (any op sequence on a block = the same sequence on a partial map, by induction), context_offset, '
          'server-context routing; the model is compared with the real block/context classes on boundary sweeps and random '
-         'op sequences each run (validate is also checked against the block\'s own current contents after ANY history; server contexts built in each way a caller can build them; several live in one process and must not share their registry).',
+         'op sequences each run (validate is also checked against the block\'s own current contents after ANY history; blocks are built from shared initial lists, which must never be written through; server contexts built in each way a caller can build them; several live in one process and must not share their registry).',
     design='6/C18', technique='Lean 4 refinement proof (block = partial map) + differential correspondence',
     note='Modelled not verified: Python list slicing and dict order. Values restricted to non-negative ints/bools.'),
 }
@@ -199,7 +199,7 @@ CLAIMED['C12'] = dict(
          'connection state and front-end), store_unchanged_without_delivery, rejected_request_changes_nothing, stopped_connection_inert, '
          'offending_data_closes_or_resets, fresh_connection_probe (a connection opened after any history is served normally), serve_chunking_independent / serve_any_two_chunkings (C06 composed with the front-end model: a stream of valid request frames of ANY classes cut into reads ANYWHERE makes a stream front-end write exactly the bytes, and leaves exactly the datastore and control block, of the requests handled one after the other; nothing stays buffered; hypothesis for Twisted: listen-only mode is not switched on in the run, shown necessary by twisted_listen_only_depends_on_chunking). Hostile histories (random bytes, well-framed ADUs around truncated / over-long / inconsistent / '
          'empty PDUs, length fields 0/1/65535, bit flips, mixed with valid writes) are sent to all seven real front-ends each run with an idle '
-         'second connection and a fresh third one probed afterwards; after every step the extent of every table must be unchanged (no request creates or removes cells).',
+         'second connection and a fresh third one probed afterwards; after every step the extent of every table must be unchanged (no request creates or removes cells), and a read that holds only writes whose byte count contradicts their quantity must change nothing.',
     design='6/C12', technique='Lean 4 proof over the server front-end model (totality, store frame rule) + differential correspondence on hostile input',
     note=SERVER_NOTE + 'That no Python exception other than those the model lists can be raised is established by correspondence, not by proof.')
 CLAIMED['C17'] = dict(
